@@ -66,6 +66,12 @@ type Run struct {
 	// SpinFails: a watchdog expiry during which the process burns CPU is a violation
 	// ("busy-loop|..."), not just an inconclusive hang (checks whose property forbids busy loops)
 	SpinFails bool
+	// CrashFails: before every guarded execution the case is written to <out>.current, so that
+	// bin/check can attribute a crash of the whole process (a panic on one of socketace's own
+	// goroutines cannot be recovered by the harness) to that case, report it as a violation
+	// ("process-crash|...") and restart the shard with that case skipped
+	CrashFails bool
+	skip       map[int]bool
 	memLimit     uint64 // bytes; 0 = never recycle
 	recycled     bool
 	inMemo       bool
@@ -122,6 +128,14 @@ func New(t *testing.T, prop string) *Run {
 			r.memLimit = uint64(m) << 20
 		}
 	}
+	if v := os.Getenv("VERIF_SKIP"); v != "" {
+		r.skip = map[int]bool{}
+		for _, x := range strings.Split(v, ",") {
+			if n, err := strconv.Atoi(x); err == nil {
+				r.skip[n] = true
+			}
+		}
+	}
 	if p := os.Getenv("VERIF_REPLAY"); p != "" {
 		b, err := os.ReadFile(p)
 		if err != nil {
@@ -134,14 +148,26 @@ func New(t *testing.T, prop string) *Run {
 			t.Fatalf("replay file has no case: %v", err)
 		}
 		r.Replay = f.Case
+		r.writeCurrent(-1, "replay", "replay", f.Case)
 	}
 	return r
+}
+
+// writeCurrent records the case that is about to run (see CrashFails).
+func (r *Run) writeCurrent(idx int, fingerprint, what string, c any) {
+	if r.OutPath == "" {
+		return
+	}
+	b, err := json.Marshal(map[string]any{"index": idx, "fingerprint": fingerprint, "what": what, "case": c})
+	if err == nil {
+		os.WriteFile(r.OutPath+".current", b, 0o644)
+	}
 }
 
 // Mine says whether the case with this index belongs to this shard (and is not before
 // the resume point). In replay mode nothing is "mine": checks test r.Replay first.
 func (r *Run) Mine(idx int) bool {
-	if idx < r.Start {
+	if idx < r.Start || r.skip[idx] {
 		return false
 	}
 	return idx%r.NShards == r.Shard
@@ -356,6 +382,9 @@ func (r *Run) DecodeReplay(v any) {
 // shard after this case.
 func (r *Run) Guard(idx int, limit time.Duration, fingerprint, what string, c any, f func()) {
 	r.maybeRecycle(idx)
+	if r.CrashFails && r.Replay == nil {
+		r.writeCurrent(idx, fingerprint, what, c)
+	}
 	done := make(chan struct{})
 	go func() {
 		select {
